@@ -492,6 +492,15 @@ func runRoCase(x *acCtx, c *acCase) {
 				}
 				opts = append(opts, carv2.MaxIndexCidSize(uint64(lim)))
 			}
+			// the tightest section size limit that admits every section of the archive (a limit counts the CID and
+			// the data, not the length prefix) must change nothing, for lookups as for scans
+			maxBody := 1
+			for _, id := range c.A.Secs {
+				if n := alphaByID[id].Cid.ByteLen() + len(alphaByID[id].Data); n > maxBody {
+					maxBody = n
+				}
+			}
+			opts = append(opts, carv2.MaxAllowedSectionSize(uint64(maxBody)))
 			// supplied index variants: none, or a generated index of either codec over the payload
 			for _, sup := range []string{"none", "sup-sorted", "sup-mh"} {
 				var supIdx index.Index
